@@ -27,6 +27,7 @@ def run(ctx):
     ctx.rule("R12.1", "KEYS: every metadata key (or literal key prefix) looked up on the savefile path is emitted by a macro of port-sugar.h")
     ctx.rule("R12.2", "VA-CONSUME: every call of rtosc_v2args passes nreserved(<same string>) as count, or a count of 1 under has_reserved(*<same string>)")
     ctx.rule("R12.4", "PAIRING: a length/index written into an argument array derives from the position of the iterator that walks that same array (runtime values vs. defaults: the two lists have different slot layouts once one is range-compressed)")
+    ctx.rule("R12.5", "PER-MESSAGE: the dependency scan of the loader keeps no mutable state across the messages of a file")
     ctx.rule("R12.3", "CAPTURE-FORMAT: every literal-format reply/broadcast in the macro-generated callbacks passes the C types rtosc_v2args / rtosc_v2argvals will read")
     meta_u = ctx.ast("meta_matrix.cpp")
     sugar_u = ctx.ast("sugar_matrix.cpp")
@@ -132,6 +133,8 @@ def run(ctx):
            detail={"array_written": sorted(names.get(i_) for i_ in arr_ids), "length_derived_from_iterator_over": sorted(str(names.get(i_)) for i_ in src_arrays)},
            what="first_equal_index trims array `%s` to a length taken from the iterator over `%s`" % (sorted(names.get(i_) for i_ in arr_ids), sorted(str(names.get(i_)) for i_ in src_arrays)))
 
+    from . import C13
+    C13.per_message_state(ctx, us, "R12.5")
     # ---- R12.3
     vtab = OF.va_table(ur)
     lams = S.lambdas(sugar_u, os.path.join(WITNESS_DIR, "sugar_matrix.cpp"))
